@@ -189,11 +189,11 @@ Print Assumptions datetime_chunk_independent.
       a space for it): blank -> (0, ten NULs, flag 0); a text of a valid civil date -> (UTC midnight of that
       date in us, first 10 bytes of the text, flag 1); any other text -> ValueError.  `date_cell_spec` is
       deterministic (next theorem), so this fixes date_row completely.
-      Domain: ASCII cells (the hypothesis is not used by the proof; it is stated because the model's branch
-      for bytes >= 128 is outside what the correspondence run validates - CPython's \d also accepts non-ASCII
-      decimal digits).  Full on that domain. *)
+      Domain: ASCII cells.  The model is of the code on every byte string (value.decode() as strict UTF-8, `\d` and
+      int() over all decimal digits of Unicode 15.0); outside ASCII the statement is false, see
+      date_unicode_digits_accepted below.  Full on that domain. *)
 Theorem date_cell_table : forall cell, ascii cell = true -> date_cell_spec cell (date_row cell).
-Proof. intros cell _. exact (date_cell_table_proof cell). Qed.
+Proof. exact date_cell_table_proof. Qed.
 Print Assumptions date_cell_table.
 
 Theorem date_cell_spec_deterministic : forall cell r1 r2,
@@ -224,7 +224,7 @@ Theorem date_invalid_raises : forall cc cell off slack tail, 0 <= off ->
   In cell (concat cc) -> ascii cell = true -> strip cell <> [] ->
   (forall y m d, date_ok y m d = true -> ~ In (strip cell) (date_texts y m d)) ->
   date_import (map (mk_chunk off slack tail) cc) = Raise E_ValueError.
-Proof. intros cc cell off slack tail Ho Hin _. exact (date_invalid_raises_proof cc cell off slack tail Ho Hin). Qed.
+Proof. exact date_invalid_raises_proof. Qed.
 Print Assumptions date_invalid_raises.
 
 (* 2020-02-30, 0000-01-01 and 2020-13-01 meet the hypotheses *)
@@ -235,6 +235,16 @@ Example date_invalid_hypotheses_satisfiable :
 Proof.
   intros cell [<-|[<-|[<-|[]]]]; (split; [reflexivity|]); apply date_bad_of_run; vm_compute; reflexivity.
 Qed.
+
+(* outside the ASCII domain: '\u0662\u0660\u0662\u0660-01-05' (Arabic-Indic year digits, UTF-8) is no printing of
+   any date in `date_texts`, yet strptime's \d and int() read it: it is imported as 2020-01-05 and the day string
+   is the first 10 bytes of the UTF-8 text.  (Replayed on the real code: same result.  Not a defect of the
+   property: the stored instant is the one the text denotes.) *)
+Theorem date_unicode_digits_accepted :
+  exists cell, ascii cell = false /\ (forall y m d, ~ In (strip cell) (date_texts y m d)) /\
+    date_row cell = Ok (midnight_us 2020 1 5, firstn 10 cell, 1).
+Proof. exists arabic_indic_2020_01_05. exact date_unicode_digits. Qed.
+Print Assumptions date_unicode_digits_accepted.
 
 (* (e) what midnight_us counts: 0 at 1970-01-01 and 86400 s more for every next civil day (month lengths, leap
       years), i.e. the UTC POSIX timestamp of the date's midnight *)
